@@ -255,6 +255,30 @@ HofCases ==
   {Case(EndOnly(<<>>, <<SDecl("funct", "f", fl), SDecl("var", "cap", EInt(c)), SPrint(Call("f", <<EInt(a)>>)), SPrint(Lc("cap"))>>), <<>>) :
        fl \in Unary1 \cup Pred1, c \in {2, 7}, a \in {1, 3}}
 
-Cases == CASE Family = "multifor" -> MultiForCases [] Family = "hof" -> HofCases [] Family = "scope" -> ScopeCases [] Family = "func" -> FuncCases [] Family = "loops" -> LoopCases
+(***************************************************************************)
+(* "unset": clearing locals.  After `unset x`, x is absent (is_absent(x) is  *)
+(* true, `y = x` is skipped, `x += 5` starts from the identity) also when an  *)
+(* enclosing scope has a variable of the same name, which is untouched; a    *)
+(* function literal's parameter masks an enclosing local even when the        *)
+(* argument is absent.  (Typed declarations are left out: whether a cleared   *)
+(* int variable keeps its type gate is not documented.)                       *)
+(***************************************************************************)
+LX == Lhs("local", "x", <<>>)
+UnsetStmts == {SDecl("var", "x", EInt(7)), SLoc("x", EInt(8)), SUnset(LX), SPrint(Lc("x")), SPrint(Bif("is_absent", <<Lc("x")>>)),
+               SLoc("y", Lc("x")), SOp(LX, Lc("x"), "+", EInt(5)), SPrint(Bif("typeof", <<Lc("x")>>))}
+UnsetBodies == {b \in Seqs(UnsetStmts, 1, 3) : \E i \in 1..Len(b) : b[i].t = "unset"}
+UnsetCompound(b) == {SIf(<<Br(EBool(TRUE), b)>>, <<>>), SFor1("e", ArrLit(<<EInt(7)>>), b)}
+LamA == {Lam(<<"a">>, <<SRet(Bin("+", Lc("a"), EInt(1)))>>), Lam(<<"a">>, <<SRet(Bif("is_absent", <<Lc("a")>>))>>),
+         Lam(<<"a">>, <<SLoc("a", EInt(3)), SRet(Lc("a"))>>), Lam(<<"a">>, <<SUnset(Lhs("local", "a", <<>>)), SRet(Bif("typeof", <<Lc("a")>>))>>)}
+UnsetS1 == {<<>>, <<SDecl("var", "x", EInt(1))>>, <<SLoc("x", EInt(2))>>}
+UnsetTail == <<SPrint(Lc("x")), SPrint(Lc("y"))>>
+UnsetCases ==
+  {Case(EndOnly(<<>>, s1 \o <<c>> \o UnsetTail), <<>>) : s1 \in UnsetS1, c \in UNION {UnsetCompound(b) : b \in UnsetBodies}}
+  \cup {Case(EndOnly(<<>>, s1 \o b \o UnsetTail), <<>>) : s1 \in UnsetS1, b \in UnsetBodies}          \* cleared in the scope it lives in
+  \cup
+  {Case(EndOnly(<<>>, <<SDecl("funct", "f", fl)>> \o s1 \o <<SPrint(Call("f", <<arg>>)), SPrint(Lc("a"))>>), <<>>) :
+       fl \in LamA, s1 \in {<<>>, <<SDecl("var", "a", EInt(50))>>}, arg \in {Oos("nosuch"), EInt(4), Lc("nolocal")}}
+
+Cases == CASE Family = "unset" -> UnsetCases [] Family = "multifor" -> MultiForCases [] Family = "hof" -> HofCases [] Family = "scope" -> ScopeCases [] Family = "func" -> FuncCases [] Family = "loops" -> LoopCases
            [] Family = "records" -> RecordCases [] Family = "index" -> IndexCases [] Family = "expr" -> ExprCases
 =============================================================================
